@@ -469,12 +469,18 @@ impl Terminal for UnixTerminal {
             // process pending output
             if tty.is_writable() {
                 let tee = self.tee.as_mut();
+                // what the tty has accepted is consumed even if the copy fails,
+                // otherwise it would be sent again
+                let mut tee_result = Ok(());
                 let send = self.write_queue.consume_with(|slice| {
                     let size = guard_io(self.tty.write(slice), 0)?;
-                    tee.map(|tee| tee.write(&slice[..size])).transpose()?;
+                    if let Some(tee) = tee {
+                        tee_result = tee.write_all(&slice[..size]);
+                    }
                     Ok::<_, Error>(size)
                 })?;
                 self.stats.send += send;
+                tee_result?;
             }
 
             // process signals
